@@ -12,6 +12,7 @@ import (
 	"sync"
 	"sync/atomic"
 	"testing"
+	"time"
 
 	"github.com/antchfx/xpath"
 	"pgregory.net/rapid"
@@ -565,4 +566,180 @@ func TestC16Concurrent(t *testing.T) {
 		})
 	})
 	journal.Close()
+}
+
+// ---------------------------------------------------------------------------
+// cache with a harness-owned schedule: the load function is the synchronisation point
+
+var uC16Sched = harness.NewUnit("C16", "rapid-cache-scheduled", ruleC16+" Fourth unit (harness-owned schedule): g goroutines call get(key_i) on a cache of capacity 1..3 that already holds r resident keys; every load blocks until the harness releases it, so all of them are inside their miss window at the same time; the harness then releases the loads in a drawn order, waiting for each get to return before the next release (or releasing all at once). Invariants: every get returns the load of its key, entries <= capacity after every completed get, a key that is present is answered with the stored value. Non-trivial: >= 2 goroutines miss at the same time.")
+
+func init() {
+	harness.RegisterOracle("C16/cache-scheduled", func(l *harness.Live) *harness.Failure {
+		_, f := oracleC16Sched(l)
+		return f
+	})
+}
+
+func oracleC16Sched(l *harness.Live) (nontrivial bool, f *harness.Failure) {
+	capacity, _ := stepsOf(l)
+	var keys, resident []string
+	b, _ := json.Marshal(l.Params["keys"])
+	_ = json.Unmarshal(b, &keys)
+	b, _ = json.Marshal(l.Params["resident"])
+	_ = json.Unmarshal(b, &resident)
+	order := intsParam(l, "order")
+	allAtOnce, _ := l.Params["all_at_once"].(bool)
+
+	var mu sync.Mutex
+	gates := map[string]chan struct{}{}
+	entered := make(chan string, 64)
+	blocking := false
+	c := xpath.NewLoadingCache(func(key interface{}) (interface{}, error) {
+		k := key.(string)
+		mu.Lock()
+		blk := blocking
+		g, ok := gates[k]
+		mu.Unlock()
+		if blk && ok {
+			entered <- k
+			<-g
+		}
+		return "v:" + k, nil
+	}, capacity)
+	for _, k := range resident {
+		if _, err := xpath.VerifCacheGet(c, k); err != nil {
+			return false, harness.Failf("resident key loads", err.Error(), "setup")
+		}
+	}
+	mu.Lock()
+	blocking = true
+	for i, k := range keys {
+		gates[fmt.Sprintf("%s#%d", k, i)] = make(chan struct{})
+		gates[k] = gates[fmt.Sprintf("%s#%d", k, i)]
+	}
+	mu.Unlock()
+	// distinct keys only, so that one gate belongs to one goroutine
+	type res struct {
+		i   int
+		v   interface{}
+		err error
+	}
+	results := make(chan res, len(keys))
+	for i, k := range keys {
+		go func(i int, k string) {
+			defer func() {
+				if r := recover(); r != nil {
+					results <- res{i, nil, fmt.Errorf("panic: %v", r)}
+				}
+			}()
+			v, err := xpath.VerifCacheGet(c, k)
+			results <- res{i, v, err}
+		}(i, k)
+	}
+	// wait until every goroutine is inside its load (misses) or has returned (hits)
+	inLoad := map[string]bool{}
+	finished := map[int]res{}
+	deadline := time.After(20 * time.Second)
+	for len(inLoad)+len(finished) < len(keys) {
+		select {
+		case k := <-entered:
+			inLoad[k] = true
+		case r := <-results:
+			finished[r.i] = r
+		case <-deadline:
+			return false, harness.Failf("all gets reach their load or return", fmt.Sprintf("%d in load, %d finished of %d", len(inLoad), len(finished), len(keys)), "a get neither returned nor called the load function (deadlock?)")
+		}
+	}
+	check := func(r res) *harness.Failure {
+		if r.err != nil || r.v != "v:"+keys[r.i] {
+			return harness.Failf("v:"+keys[r.i], fmt.Sprintf("%v, %v", r.v, r.err), "get(%s) returned the wrong value", keys[r.i])
+		}
+		if n := xpath.VerifCacheLen(c); capacity > 0 && n > capacity {
+			return harness.Failf(fmt.Sprintf("at most %d entries", capacity), fmt.Sprintf("%d entries", n), "after get(%s) completed with %d loads released in the miss window", keys[r.i], len(inLoad))
+		}
+		return nil
+	}
+	for _, r := range finished {
+		if f := check(r); f != nil {
+			return false, f
+		}
+	}
+	release := func(i int) {
+		k := keys[i]
+		if inLoad[k] {
+			close(gates[k])
+			inLoad[k] = false
+		}
+	}
+	waitOne := func() *harness.Failure {
+		select {
+		case r := <-results:
+			finished[r.i] = r
+			return check(r)
+		case <-time.After(20 * time.Second):
+			return harness.Failf("a released get returns", "nothing within 20 s", "a get did not return after its load was released")
+		}
+	}
+	misses := 0
+	for _, v := range inLoad {
+		if v {
+			misses++
+		}
+	}
+	if allAtOnce {
+		for i := range keys {
+			release(i)
+		}
+		for len(finished) < len(keys) {
+			if f := waitOne(); f != nil {
+				return false, f
+			}
+		}
+	} else {
+		for _, oi := range order {
+			i := oi % len(keys)
+			if _, done := finished[i]; done || !inLoad[keys[i]] {
+				continue
+			}
+			release(i)
+			if f := waitOne(); f != nil {
+				return false, f
+			}
+		}
+		for i := range keys {
+			if _, done := finished[i]; !done {
+				release(i)
+				if f := waitOne(); f != nil {
+					return false, f
+				}
+			}
+		}
+	}
+	if n := xpath.VerifCacheLen(c); capacity > 0 && n > capacity {
+		return false, harness.Failf(fmt.Sprintf("at most %d entries", capacity), fmt.Sprintf("%d entries", n), "at the end of the schedule")
+	}
+	return misses >= 2, nil
+}
+
+func TestC16Scheduled(t *testing.T) {
+	runRapid(t, uC16Sched, func(rt *rapid.T) {
+		capacity := rapid.IntRange(1, 3).Draw(rt, "cap")
+		pool := []string{"a", "b", "c", "d", "e", "f"}
+		nres := rapid.IntRange(0, capacity).Draw(rt, "nresident")
+		resident := append([]string{}, pool[:nres]...)
+		ng := rapid.IntRange(2, 5).Draw(rt, "goroutines")
+		// distinct keys for the concurrent gets; some may be resident (hits)
+		perm := rapid.Permutation(pool).Draw(rt, "keys")
+		keys := perm[:ng]
+		order := rapid.SliceOfN(rapid.IntRange(0, ng-1), ng, ng).Draw(rt, "order")
+		all := rapid.IntRange(0, 3).Draw(rt, "all") == 0
+		l := &harness.Live{Property: "C16", Check: "C16/cache-scheduled", Params: map[string]interface{}{"cap": capacity, "keys": keys, "resident": resident, "order": order, "all_at_once": all}}
+		nt, f := oracleC16Sched(l)
+		if f != nil {
+			harness.Report(rt, uC16Sched, l, f)
+		}
+		uC16Sched.Case(harness.Hash64(fmt.Sprint(capacity, keys, resident, order, all)), nt, []string{fmt.Sprintf("cap:%d", capacity), fmt.Sprintf("goroutines:%d", ng)}, func() interface{} {
+			return l.Params
+		})
+	})
 }
